@@ -135,6 +135,8 @@ GRAPH_RULE = ("random acyclic module graphs (1..12 modules; maps, stores, block 
 def C14(run):
     q = run.tier == "quick"
     run.model_check("MCGraph", "MCGraph_quick.cfg" if q else "MCGraph_thorough.cfg", workers=16, timeout=3000)
+    if not q:   # all graphs of 4 modules over one initial block (394k states, ~4 min)
+        run.model_check("MCGraph", "MCGraph_thorough4.cfg", workers=16, timeout=3000)
     tr = _t(run, "graph.ndjson")
     info = run.harness("graph", tr)
     v = run.validate_sharded("TraceGraph", tr, boundary='"g":', shards=14)
@@ -151,6 +153,8 @@ def C14(run):
 def C06(run):
     q = run.tier == "quick"
     run.model_check("MCGraph", "MCGraph_quick.cfg" if q else "MCGraph_thorough.cfg", workers=16, timeout=3000)
+    if not q:
+        run.model_check("MCGraph", "MCGraph_thorough4.cfg", workers=16, timeout=3000)
     tr = _t(run, "sig.ndjson")
     info = run.harness("sig", tr)
     v = run.validate_sharded("TraceGraph", tr, boundary='"g":', shards=14)
@@ -244,6 +248,15 @@ def C17(run):
 
 
 # ------------------------------------------------------------------ end-to-end system driver (C01 C04 C07 C15-e2e C16)
+def _only(run, kind):
+    """--replay of a system-driver failure: restrict the driver to the failing scenario (same seed => same scenario).
+    Replay labels are system-<kind|all>, sched-<kind>, sched-<kind>-termination."""
+    rp = getattr(run, "replay", None)
+    if rp and rp.get("scenario") is not None and (kind or "all") in (rp.get("driver") or "").split("-"):
+        return ["-only", str(rp["scenario"])]
+    return []
+
+
 def _system_trace(run, prefix, kind="", n=None):
     tr = _t(run, "system-%s.ndjson" % (kind or "all"))
     extra = []
@@ -251,6 +264,7 @@ def _system_trace(run, prefix, kind="", n=None):
         extra += ["-x", kind]
     if n:
         extra += ["-n", str(n)]
+    extra += _only(run, kind)
     info = run.harness("system", tr, extra=extra, timeout=3000)
     v = run.validate_sharded("TraceSystem", tr, boundary='"ev":"prog"', shards=12, xss="512m")
     run.judge(v, tr, "system-" + (kind or "all"), only=prefix)
@@ -289,7 +303,7 @@ def C01(run):
 def C04(run):
     run.model_check("MCPlan", "MCPlan_quick.cfg", workers=8)
     _system_common(run, "C04:", "resume")
-    _system_trace(run, "C04:", "strategies", n=(6 if run.tier == "quick" else 300))
+    _system_trace(run, "C04:", "strategies", n=(14 if run.tier == "quick" else 300))
 
 
 def C07(run):
@@ -335,19 +349,18 @@ def C16(run):
 def C05(run):
     q = run.tier == "quick"
     # design level: exhaustive interleavings on small grids, every cache state an earlier complete run can leave; liveness with fairness
-    # (MCSched_3x3_partials: every subset of the partial files on an otherwise cold cache - what a crash before any merge leaves -
-    #  checked for no invalid transition, merges once and in order, worker accounting, termination)
-    for cfgname in (["MCSched_quick.cfg", "MCSched_2x3.cfg", "MCSched_3x4.cfg", "MCSched_3x3_partials.cfg"] if q else ["MCSched_quick.cfg", "MCSched_2x3.cfg", "MCSched_3x4.cfg", "MCSched_3x3_partials.cfg", "MCSched_3x4w.cfg", "MCSched_2S.cfg"]):
+    # (MCSched_3x3_partials: every subset of the partial files on an otherwise cold cache - what a crash before any merge leaves)
+    for cfgname in (["MCSched_quick.cfg", "MCSched_2x3.cfg", "MCSched_3x4.cfg", "MCSched_3x3_partials.cfg", "MCSched_4x3.cfg"] if q else ["MCSched_quick.cfg", "MCSched_2x3.cfg", "MCSched_3x4.cfg", "MCSched_3x3_partials.cfg", "MCSched_4x3.cfg", "MCSched_4x4.cfg", "MCSched_3x4w.cfg", "MCSched_2S.cfg"]):
         run.model_check("MCSched", cfgname, workers=16, timeout=3000)
-    # arbitrary cache subsets: the design-level counterexample of known finding D7 must still be there (not an alarm)
-    res = run.tlc("MCSched", "MCSched_2x3_any.cfg", workers=4, timeout=600, expect_violation=True)
-    run.cov["design_level_known_finding_D7_reproduced"] = bool(res.get("invariant_violated")) and "JobInputsComplete" in res["out"]
+    # arbitrary cache subsets (every subset of the snapshot / partial / output files of a 2x3 grid): since the repair of
+    # dependenciesCompleted (1cdc7a28) every invariant holds there too - before it, JobInputsComplete was violated (D7)
+    run.model_check("MCSched", "MCSched_2x3_any.cfg", workers=8, timeout=1200)
     # real scheduler: every Update of real tier1 runs (hook), random job completion orders, cold / warm / subset caches
     tr = _t(run, "system-sched.ndjson")
     total = 0
     for kind, n in (("strategies", 10 if q else 300), ("subsets", 12 if q else 300), ("schedcex", 4 if q else 40)):
         trk = _t(run, "system-sched-%s.ndjson" % kind)
-        info = run.harness("system", trk, extra=["-x", kind, "-n", str(n)], timeout=3000)
+        info = run.harness("system", trk, extra=["-x", kind, "-n", str(n)] + _only(run, kind), timeout=3000)
         v = run.validate_sharded("TraceSched", trk, boundary='"ev":"prog"', shards=12, xss="512m")
         run.judge(v, trk, "sched-" + kind, only="C05:")
         # a run that hangs or fails is reported by TraceSystem (C05 liveness on the real code: the request must terminate)
